@@ -51,8 +51,8 @@ theorem at_most_one_result_ever (c : Cfg) (ops : List Op) (j : Job) :
   have hb := run_balanced c ops j
   exact ⟨by omega, (run_uniq c ops).2 j⟩
 
-/-- every put accepted before `stop()` (arrival marker `put j`), and stop_data, has exactly one of
-    success / error / cancel, carrying the job itself (its sequence number and original data), once the
+/-- every put accepted before `stop()` (arrival marker `put j`), whatever its data -- the empty mapping
+    included --, and stop_data, has exactly one of success / error / cancel, carrying the job itself (its sequence number and original data), once the
     work is complete.  (Puts that reach the block after `stop()` carry the marker `late j`, see
     `late_put_never_served` and `every_put_exactly_one_result_partial`.) -/
 theorem exactly_one_result (c : Cfg) (ops : List Op) (t : Nat) (j : Job)
@@ -291,55 +291,68 @@ theorem every_put_exactly_one_result_partial (c : Cfg) (ops : List Op)
 /-- a put after `stop()` (cancel mode, sent while the controller waits for the guard sleep of the cancelled
     run): accepted, never started, never reported; stop_data runs last and succeeds -/
 example :
-    let c : Cfg := ⟨.cancel, 2, some ⟨99, 2, false⟩, 1000⟩
-    let ops := [Op.put 0 true false ⟨1, 5, false⟩, .stop 1 true false, .put 2 true false ⟨2, 1, false⟩]
-    (2, Ev.late ⟨2, ⟨2, 1, false⟩⟩) ∈ (final c ops).log ∧
-    (resJobs (final c ops).log).count ⟨2, ⟨2, 1, false⟩⟩ = 0 ∧
-    (3, Ev.start ⟨1, ⟨99, 2, false⟩⟩) ∈ (final c ops).log ∧
-    (5, Ev.succ ⟨1, ⟨99, 2, false⟩⟩) ∈ (final c ops).log := by decide +kernel
+    let c : Cfg := ⟨.cancel, 2, some ⟨99, 2, false, false⟩, 1000⟩
+    let ops := [Op.put 0 true false ⟨1, 5, false, false⟩, .stop 1 true false, .put 2 true false ⟨2, 1, false, false⟩]
+    (2, Ev.late ⟨2, ⟨2, 1, false, false⟩⟩) ∈ (final c ops).log ∧
+    (resJobs (final c ops).log).count ⟨2, ⟨2, 1, false, false⟩⟩ = 0 ∧
+    (3, Ev.start ⟨1, ⟨99, 2, false, false⟩⟩) ∈ (final c ops).log ∧
+    (5, Ev.succ ⟨1, ⟨99, 2, false, false⟩⟩) ∈ (final c ops).log := by decide +kernel
 
 
 /-- cancel mode, guard 2: run 0 is cancelled by put 1, put 1 is discarded for put 2 (which arrives during
     the guard sleep), put 2 completes; three results, output back to 0 -/
 example :
     let c : Cfg := ⟨.cancel, 2, none, 1000⟩
-    let ops := [Op.put 0 true false ⟨1, 5, false⟩, .put 2 true false ⟨2, 5, false⟩,
-                .put 3 true false ⟨3, 1, false⟩, .stop 30 true false]
-    (2, Ev.cancelled ⟨0, ⟨1, 5, false⟩⟩) ∈ (final c ops).log ∧
-    (4, Ev.canc ⟨1, ⟨2, 5, false⟩⟩) ∈ (final c ops).log ∧
-    (4, Ev.start ⟨2, ⟨3, 1, false⟩⟩) ∈ (final c ops).log ∧
-    (5, Ev.succ ⟨2, ⟨3, 1, false⟩⟩) ∈ (final c ops).log ∧
+    let ops := [Op.put 0 true false ⟨1, 5, false, false⟩, .put 2 true false ⟨2, 5, false, false⟩,
+                .put 3 true false ⟨3, 1, false, false⟩, .stop 30 true false]
+    (2, Ev.cancelled ⟨0, ⟨1, 5, false, false⟩⟩) ∈ (final c ops).log ∧
+    (4, Ev.canc ⟨1, ⟨2, 5, false, false⟩⟩) ∈ (final c ops).log ∧
+    (4, Ev.start ⟨2, ⟨3, 1, false, false⟩⟩) ∈ (final c ops).log ∧
+    (5, Ev.succ ⟨2, ⟨3, 1, false, false⟩⟩) ∈ (final c ops).log ∧
     (final c ops).output = 0 ∧ (final c ops).nacc = 3 := by decide +kernel
 
 /-- wait mode with stop_data: queued work and then stop_data are processed after the stop -/
 example :
-    let c : Cfg := ⟨.wait, 1, some ⟨99, 2, false⟩, 1000⟩
-    let ops := [Op.put 0 true false ⟨1, 3, false⟩, .put 1 false false ⟨2, 3, true⟩, .stop 2 true false]
+    let c : Cfg := ⟨.wait, 1, some ⟨99, 2, false, false⟩, 1000⟩
+    let ops := [Op.put 0 true false ⟨1, 3, false, false⟩, .put 1 false false ⟨2, 3, true, false⟩, .stop 2 true false]
     (final c ops).stopped = true ∧
-    (7, Ev.err ⟨1, ⟨2, 3, true⟩⟩) ∈ (final c ops).log ∧
-    (8, Ev.start ⟨2, ⟨99, 2, false⟩⟩) ∈ (final c ops).log ∧
-    (10, Ev.succ ⟨2, ⟨99, 2, false⟩⟩) ∈ (final c ops).log := by decide +kernel
+    (7, Ev.err ⟨1, ⟨2, 3, true, false⟩⟩) ∈ (final c ops).log ∧
+    (8, Ev.start ⟨2, ⟨99, 2, false, false⟩⟩) ∈ (final c ops).log ∧
+    (10, Ev.succ ⟨2, ⟨99, 2, false, false⟩⟩) ∈ (final c ops).log := by decide +kernel
 
 /-- start mode: two overlapping runs, stop_data after both -/
 example :
-    let c : Cfg := ⟨.start, 0, some ⟨99, 2, false⟩, 1000⟩
-    let ops := [Op.put 0 true false ⟨1, 3, false⟩, .put 1 true false ⟨2, 2, false⟩, .stop 2 true false]
-    (1, Ev.out 2) ∈ (final c ops).log ∧ (3, Ev.start ⟨2, ⟨99, 2, false⟩⟩) ∈ (final c ops).log := by
+    let c : Cfg := ⟨.start, 0, some ⟨99, 2, false, false⟩, 1000⟩
+    let ops := [Op.put 0 true false ⟨1, 3, false, false⟩, .put 1 true false ⟨2, 2, false, false⟩, .stop 2 true false]
+    (1, Ev.out 2) ∈ (final c ops).log ∧ (3, Ev.start ⟨2, ⟨99, 2, false, false⟩⟩) ∈ (final c ops).log := by
   decide +kernel
+
+/-- the data of a put is an arbitrary mapping -- the EMPTY mapping included (`Item.empty`: `blk.event('put')`
+    for a coroutine without arguments, `stop_data = {}`): all statements above quantify over every `Item`, so an
+    empty mapping is an item like any other.  Here (wait mode): a put without data runs and succeeds, the next
+    put is served after it, and the empty stop_data runs last -/
+example :
+    let c : Cfg := ⟨.wait, 0, some ⟨99, 2, false, true⟩, 1000⟩
+    let ops := [Op.put 0 true false ⟨1, 1, false, true⟩, .put 2 true false ⟨2, 1, false, false⟩, .stop 6 false false]
+    (1, Ev.succ ⟨0, ⟨1, 1, false, true⟩⟩) ∈ (final c ops).log ∧
+    (3, Ev.succ ⟨1, ⟨2, 1, false, false⟩⟩) ∈ (final c ops).log ∧
+    (6, Ev.start ⟨2, ⟨99, 2, false, true⟩⟩) ∈ (final c ops).log ∧
+    (resJobs (final c ops).log).count ⟨0, ⟨1, 1, false, true⟩⟩ = 1 ∧
+    (final c ops).output = 0 := by decide +kernel
 
 /-- stop_timeout expiry (wait mode, stop at 2, stop_timeout 4, deadline 6): the run in progress (put 2,
     started at 3) is reported cancelled at 6, but the work goes on after the deadline -- put 3 starts at 6
     and succeeds at 9, stop_data runs from 9 to 11; every put still has exactly one result.
     (This is what the code does: `_output_coro` swallows the cancellation of `stop_async`.) -/
 example :
-    let c : Cfg := ⟨.wait, 0, some ⟨99, 2, false⟩, 4⟩
-    let ops := [Op.put 0 true false ⟨1, 3, false⟩, .put 1 true false ⟨2, 3, false⟩,
-                .put 1 true true ⟨3, 3, false⟩, .stop 2 true false]
+    let c : Cfg := ⟨.wait, 0, some ⟨99, 2, false, false⟩, 4⟩
+    let ops := [Op.put 0 true false ⟨1, 3, false, false⟩, .put 1 true false ⟨2, 3, false, false⟩,
+                .put 1 true true ⟨3, 3, false, false⟩, .stop 2 true false]
     (6, Ev.timeout) ∈ (final c ops).log ∧
-    (6, Ev.canc ⟨1, ⟨2, 3, false⟩⟩) ∈ (final c ops).log ∧
-    (6, Ev.start ⟨2, ⟨3, 3, false⟩⟩) ∈ (final c ops).log ∧
-    (9, Ev.succ ⟨2, ⟨3, 3, false⟩⟩) ∈ (final c ops).log ∧
-    (11, Ev.succ ⟨3, ⟨99, 2, false⟩⟩) ∈ (final c ops).log ∧
+    (6, Ev.canc ⟨1, ⟨2, 3, false, false⟩⟩) ∈ (final c ops).log ∧
+    (6, Ev.start ⟨2, ⟨3, 3, false, false⟩⟩) ∈ (final c ops).log ∧
+    (9, Ev.succ ⟨2, ⟨3, 3, false, false⟩⟩) ∈ (final c ops).log ∧
+    (11, Ev.succ ⟨3, ⟨99, 2, false, false⟩⟩) ∈ (final c ops).log ∧
     (final c ops).output = 0 := by decide +kernel
 
 end Edzed.OutputAsync
